@@ -18,21 +18,23 @@
    before a dc.onclose that overtakes it (the chunk is then in the figures).  *)
 EXTENDS ProxyRelay, Json, TLCExt
 
-VARIABLES l, ack            \* ack[s]: the dispatcher event of session s has been seen
-tvars == <<vars, l, ack>>
+VARIABLES l, ack,           \* ack[s]: the dispatcher event of session s has been seen
+          early             \* early[s]: the send of the chunk D holds was taken before its conn.write event arrived
+                            \* (the hook runs after dc.Send: the client may log the receipt first)
+tvars == <<vars, l, ack, early>>
 
 TraceLog == ndJsonDeserialize("trace.ndjson")
 NEv == Len(TraceLog)
 Ev == TraceLog[l]
 Is(name) == l <= NEv /\ Ev.ev = name
 Step == l' = l + 1
-Keep == UNCHANGED ack
+Keep == UNCHANGED <<ack, early>>
 
-TInit == Init /\ l = 1 /\ ack = [s \in Sessions |-> FALSE] /\ TLCSet(1, 1)
+TInit == Init /\ l = 1 /\ ack = [s \in Sessions |-> FALSE] /\ early = [s \in Sessions |-> FALSE] /\ TLCSet(1, 1)
 
-(* size of the next conn.write event of session s at or after position l (0: none) *)
+(* size of the next conn.write.counted / conn.write event of session s at or after position l (0: none) *)
 NextWrite(s) ==
-  LET idx == {i \in l..NEv : TraceLog[i].ev = "conn.write" /\ TraceLog[i].s = s}
+  LET idx == {i \in l..NEv : TraceLog[i].ev \in {"conn.write.counted", "conn.write"} /\ TraceLog[i].s = s}
   IN IF idx = {} THEN 0 ELSE TraceLog[CHOOSE i \in idx : \A j \in idx : i <= j].n
 
 TStart == Is("relay.accept") /\ Start(Ev.s) /\ Step /\ Keep
@@ -41,6 +43,8 @@ TRelaySend == Is("relay.send") /\ RelaySend(Ev.s, Ev.n) /\ Step /\ Keep
 TClientClose == Is("client.close") /\ ClientCloseDc(Ev.s) /\ Step /\ Keep
 TClientAbort == Is("client.abort") /\ ClientAbort(Ev.s) /\ Step /\ Keep
 TClientVanish == Is("client.vanish") /\ ClientVanish(Ev.s) /\ Step /\ Keep
+TStall == Is("client.stall") /\ ClientStallsReading(Ev.s) /\ Step /\ Keep
+TResume == Is("client.resume") /\ ClientResumes(Ev.s) /\ Step /\ Keep
 TRelayClose == Is("relay.close") /\ RelayCloseWs(Ev.s) /\ Step /\ Keep
 TOnMsg ==
   /\ Is("dc.onmsg") /\ Step /\ Keep
@@ -51,19 +55,24 @@ TRelayRecv == Is("relay.recv") /\ Ev.ok = TRUE /\ RelayRecv(Ev.s, Ev.n) /\ Step 
 TClientRecv ==
   /\ Is("client.recv") /\ Ev.ok = TRUE /\ Step /\ Keep
   /\ X(Ev.s).dcDown # <<>> /\ Head(X(Ev.s).dcDown) = Ev.n /\ ClientRecv(Ev.s)
+NextSent(s) ==              \* the next conn.write event of session s says the chunk was sent
+  LET idx == {i \in l..NEv : TraceLog[i].ev = "conn.write" /\ TraceLog[i].s = s}
+  IN idx # {} /\ TraceLog[CHOOSE i \in idx : \A j \in idx : i <= j].sent
 TConnWrite ==
-  /\ Is("conn.write") /\ Step /\ Keep
-  /\ X(Ev.s).D = "send" /\ X(Ev.s).dbuf = Ev.n
-  /\ IF Ev.sent THEN CopyToClient(Ev.s) ELSE CopyToClientDropped(Ev.s)
+  /\ Is("conn.write") /\ Step /\ UNCHANGED ack
+  /\ IF early[Ev.s]
+       THEN Ev.sent /\ UNCHANGED vars /\ early' = [early EXCEPT ![Ev.s] = FALSE]
+       ELSE /\ X(Ev.s).D = "send" /\ X(Ev.s).dbuf = Ev.n /\ UNCHANGED early
+            /\ IF Ev.sent THEN CopyToClient(Ev.s) ELSE CopyToClientDropped(Ev.s)
 TCounted ==                    \* conn.Write has counted the chunk (hook after AddInbound, before conn.lock)
-  /\ Is("conn.write.counted") /\ Step /\ UNCHANGED <<vars, ack>>
+  /\ Is("conn.write.counted") /\ Step /\ UNCHANGED <<vars, ack, early>>
   /\ X(Ev.s).D = "send" /\ X(Ev.s).dbuf = Ev.n
 TOnClose ==
   /\ Is("dc.onclose") /\ Step /\ Keep
   /\ X(Ev.s).inCnt = Ev.in /\ X(Ev.s).outCnt = Ev.out      \* the figures the code read are the model's counters
   /\ DcOnClose(Ev.s)
 TOver ==
-  /\ Is("event.over") /\ Step /\ UNCHANGED vars
+  /\ Is("event.over") /\ Step /\ UNCHANGED <<vars, early>>
   /\ \E s \in Sessions : /\ ~ack[s] /\ X(s).over = <<Ev.in, Ev.out>>
                          /\ ack' = [ack EXCEPT ![s] = TRUE]
 TRelayEnd ==
@@ -75,30 +84,34 @@ TClientSaw ==                  \* a client that closed by itself also gets its o
 TClEnd == Is("cl.end") /\ CopyLoopEnds(Ev.s) /\ Step /\ Keep
 TPcClose == Is("conn.pcclose") /\ ConnClose(Ev.s) /\ Step /\ Keep
 TTokRet == Is("tok.ret") /\ HandlerReturns(Ev.s) /\ Step /\ Keep
-TDhEnd == Is("dh.end") /\ X(Ev.s).H = "done" /\ Step /\ UNCHANGED <<vars, ack>>
-TSkip == l <= NEv /\ Ev.ev \in {"start", "harness.note"} /\ Step /\ UNCHANGED <<vars, ack>>
+TDhEnd == Is("dh.end") /\ X(Ev.s).H = "done" /\ Step /\ UNCHANGED <<vars, ack, early>>
+TSkip == l <= NEv /\ Ev.ev \in {"start", "harness.note"} /\ Step /\ UNCHANGED <<vars, ack, early>>
 
-Silent ==
+SilentEarlySend ==
   /\ l <= NEv /\ UNCHANGED <<l, ack>>
+  /\ \E s \in Sessions : /\ X(s).D = "send" /\ ~early[s] /\ NextSent(s) /\ CopyToClient(s)
+                         /\ early' = [early EXCEPT ![s] = TRUE]
+Silent ==
+  /\ l <= NEv /\ UNCHANGED <<l, ack, early>>
   /\ \E s \in Sessions :
        \/ DcOnMessageStart(s) \/ PipeRendezvous(s) \/ DcReadErr(s) \/ DcLoss(s) \/ DownLoss(s) \/ LoggerDrain(s)
        \/ CopyUpEOF(s) \/ CopyUpClosed(s) \/ CopyToRelay(s) \/ CopyUpFails(s)
        \/ CopyDownEOF(s) \/ ConnWriteAdd(s) \/ PrClose(s) \/ WsClose(s)
-       \/ (NextWrite(s) > 0 /\ CopyDownRead(s, NextWrite(s)))
+       \/ (NextWrite(s) > 0 /\ ~early[s] /\ CopyDownRead(s, NextWrite(s)))
 
 (* end of the recording: every session one of whose ends closed is over - event published (and seen by the
    listener), slot returned, both copiers stopped, one pc.Close *)
 TEnd ==
-  /\ Is("end") /\ Step /\ UNCHANGED <<vars, ack>>
+  /\ Is("end") /\ Step /\ UNCHANGED <<vars, ack, early>>
   /\ \A s \in Sessions : Ends(s) =>
        (X(s).nOver = 1 /\ ack[s] /\ X(s).retd = 1 /\ X(s).H = "done" /\ X(s).U = "ended" /\ X(s).D = "ended" /\ X(s).pcCloses = 1)
-TDiverged == Is("diverged") /\ l' = NEv + 1 /\ UNCHANGED <<vars, ack>>
+TDiverged == Is("diverged") /\ l' = NEv + 1 /\ UNCHANGED <<vars, ack, early>>
 TDone == l > NEv /\ UNCHANGED tvars
 
 TNext ==
-  \/ TStart \/ TClientSend \/ TRelaySend \/ TClientClose \/ TClientAbort \/ TClientVanish \/ TRelayClose
+  \/ TStart \/ TClientSend \/ TRelaySend \/ TClientClose \/ TClientAbort \/ TClientVanish \/ TStall \/ TResume \/ TRelayClose
   \/ TOnMsg \/ TRelayRecv \/ TClientRecv \/ TCounted \/ TConnWrite \/ TOnClose \/ TOver \/ TRelayEnd \/ TClientSaw
-  \/ TClEnd \/ TPcClose \/ TTokRet \/ TDhEnd \/ TSkip \/ Silent \/ TEnd \/ TDiverged \/ TDone
+  \/ TClEnd \/ TPcClose \/ TTokRet \/ TDhEnd \/ TSkip \/ Silent \/ SilentEarlySend \/ TEnd \/ TDiverged \/ TDone
 TSpec == TInit /\ [][TNext]_tvars
 
 Mark == IF l > TLCGet(1) THEN TLCSet(1, l) ELSE TRUE
